@@ -69,7 +69,9 @@ func (c14) Gen(r *rand.Rand, tier string, i int) any {
 	c := c14Case{Shape: []string{"operator", "operator", "operator", "enumerate", "enumerate-end", "const-annotation", "head-copy", "head-const", "head-now", "derived-operator", "operator-enumerate"}[r.Intn(11)]}
 	c.Op = r.Intn(4)
 	if c.Shape == "operator-enumerate" {
-		c.Op = []int{0, 2}[r.Intn(2)] // diamonds: every stored interval that meets the window is one solution
+		// diamonds: every stored interval that meets the window is one solution; boxes: every stored interval that
+		// covers the window
+		c.Op = r.Intn(4)
 	}
 	c.WA = r.Intn(9)
 	c.WB = c.WA + r.Intn(13-c.WA)
@@ -219,7 +221,7 @@ func c14Expected(c c14Case) c14Expect {
 		// stored intervals, the operator keeps those that hold at some instant of the window
 		for v, xs := range m {
 			for _, x := range xs {
-				if x.s <= w.e && w.s <= x.e {
+				if holds([]ivl{x}) {
 					addP(numAtom("r", ast.Number(int64(v)), ast.Time(x.s), ast.Time(x.e)))
 				}
 			}
